@@ -678,6 +678,10 @@ func (repo *GoGitRepo) UpdateRef(ref string, hash Hash) error {
 
 // RemoveRef will remove a Git reference
 func (repo *GoGitRepo) RemoveRef(ref string) error {
+	// removing a packed ref rewrites the packed-refs file: two concurrent rewrites lose one of the removals
+	repo.rMutex.Lock()
+	defer repo.rMutex.Unlock()
+
 	return repo.r.Storer.RemoveReference(plumbing.ReferenceName(ref))
 }
 
